@@ -20,10 +20,10 @@ Definition e_prep : tgraph := exec_prepare e_wf e_ctx 100.
 Example builder_is_built : built e_builder /\ built e_wf /\ built (insert_context e_builder e_ctx 100).
 Proof. repeat split; repeat constructor. Qed.
 
-(* all guards of dask_dict_sound / dask_get_sound / execute_sound / exactly_once hold *)
+(* all hypotheses of dask_dict_sound / dask_get_sound / execute_sound / exactly_once hold *)
 Example guards_hold :
   map tid (output_tasks e_prep) = [4%positive] /\ length (nodes e_prep) = 4 /\
-  g_keys_fresh e_prep r_ids = true /\ g_static_nokey e_prep r_ids = true /\ g_static_nocall e_prep = true /\
+  g_keys_fresh e_prep r_ids = true /\
   length (topo_order e_prep) = length (nodes e_prep) /\ nodup_tids (nodes e_wf) = true /\ uids_below 100 e_wf = true.
 Proof. crunch. Qed.
 
